@@ -168,7 +168,7 @@ Proof. vm_compute. repeat split. Qed.
     [run_gates gates a b] walks the gates as the source statements behave (a rejecting gate returns; the
     seen-set insert takes effect whatever follows it) and yields (admitted?, agent, 'receive' recorded?). *)
 
-(** The gates in source order admit exactly the bundles the model's [recv_core] processes; when they admit,
+(** The gates in source order let through exactly the bundles the model's [recv_core] processes; when they let one through,
     the identity and 'receive' are recorded; when they reject, the agent is untouched. *)
 Theorem C10_gates_match_model :
   forall (a : agent) (b : bundle),
